@@ -107,6 +107,21 @@ CLAIMS = {
              "exhaustive boundary sets); store map law = C12/C05; JPEG error bound exploration-level only.",
         technique="Lean 4 proof (iff characterisation, history refinement) + differential correspondence",
         ref="DESIGN.md §6 C03"),
+    "C11": dict(
+        text="Lean 4 theorems on an exact-value model of get_chunk_dtype_transformer (dyadic rationals, "
+             "NumPy promotion / safe-cast tables, rint half-even, clip with bounds converted to the work "
+             "type, range-checked final cast): integer->integer for ALL type pairs and values is exact or "
+             "saturated; float->8/16/32-bit integers is the nearest integer (ties to even) saturating, for "
+             "every finite value; float->uint64 likewise below 2^64; the result is never a wrap. At >= 2^64 "
+             "the statement is FALSE of the code: kernel-checked counterexample theorem + known finding F6 "
+             "(test-pinned). Tie: all 50 type pairs x boundary/random values x {preserve, reuse} x "
+             "{contiguous, strided, read-only} against the model, an independent exact oracle (incl. "
+             "nearest-float32) and NumPy's own promotion/can_cast tables; input bytes hashed.",
+        note="Trusted: Lean kernel; standard axioms; hand-written model (tie = boundary sampling); NumPy's "
+             "float casts assumed correctly rounded (checked against nearestF32); NaN/inf outside the property.",
+        technique="Lean 4 proof (case analysis over type tables + linear integer arithmetic) + "
+                  "differential correspondence",
+        ref="DESIGN.md §6 C11"),
 }
 
 ALL = ["C%02d" % i for i in range(1, 21)]
